@@ -155,7 +155,9 @@ impl Binomial {
                 let s = p / q;
                 Method::Binv(
                     Binv {
-                        r: q.powf(n as f64),
+                        // q^n from p itself: q = 1 - p is rounded, and for tiny p and huge n
+                        // that rounding error is multiplied by n
+                        r: (n as f64 * (-p).ln_1p()).exp(),
                         s,
                         a: (n as f64 + 1.0) * s,
                         n,
